@@ -1,10 +1,116 @@
-"""C15 — strings index by character over all of Unicode (dimensional discipline R15a, scalar validation R15b)."""
+"""C15 — strings index by character over all of Unicode (dimensional discipline R15a, scalar validation R15b,
+absent-character discipline R15c)."""
+from ..facts import callee, op_place, short_path
+from ..shapes import roots, guard_shapes
+from .common import *
 from . import units
+
+STRMOD = "marwood::vm::builtin::string::"
+DEFAULTING = ("::unwrap_or", "::unwrap_or_else", "::unwrap_or_default", "::map_or", "::map_or_else", "::unwrap", "::expect",
+              "::unwrap_unchecked")
+TO_ERR = ("::ok_or", "::ok_or_else")
+THROUGH = ("::map", "::and_then", "::filter", "::copied", "::cloned", "::as_ref", "::inspect", "::zip")
+
+
+def _follow(fn, local, seen):
+    """where does an Option value end up: list of (kind, term/stmt) with kind in err / default / match / other"""
+    if local in seen:
+        return []
+    seen.add(local)
+    out = []
+    for bb, j, st in fn.stmts():
+        rv = st["rv"]
+        if rv["k"] == "disc" and rv["place"]["l"] == local:
+            out.append(("match", st, bb))
+        elif rv["k"] in ("use", "ref") and not st["lhs"]["p"]:
+            pl = op_place(rv.get("a")) if rv["k"] == "use" else rv.get("place")
+            if pl is not None and pl["l"] == local and not pl["p"]:
+                out += _follow(fn, st["lhs"]["l"], seen)
+    for bb, t in fn.calls():
+        for i, a in enumerate(t["args"]):
+            pl = op_place(a)
+            if pl is None or pl["l"] != local or i != 0:
+                continue
+            c = callee(t) or ""
+            if "option::Option" not in c:
+                out.append(("other", t, bb))
+            elif c.endswith(TO_ERR):
+                out.append(("err", t, bb))
+            elif c.endswith(DEFAULTING):
+                out.append(("default", t, bb))
+            elif c.endswith(THROUGH) and not t["dest"]["p"]:
+                out += _follow(fn, t["dest"]["l"], seen)
+            else:
+                out.append(("other", t, bb))
+    return out
+
+
+def r15c(ctx, rep, rule="R15c"):
+    facts = ctx["facts"]
+    rep.rule(rule, "a character that is not there is an error: in the string procedures every lookup of the idx-th character "
+             "(Iterator::nth over chars() / char_indices()) has its `absent` outcome turned into an Err (ok_or / ok_or_else, or "
+             "a match whose None arm returns Err). An absent outcome replaced by a default (unwrap_or(s.len()), map_or ...) "
+             "clamps an out-of-range index or range end instead of reporting it, unless a dominating test of the same index "
+             "has already rejected it.")
+    n = 0
+    for p, f in sorted(facts.fns.items()):
+        if not p.startswith(STRMOD) or "::{closure" in p:
+            continue
+        for bb, t in f.calls():
+            c = callee(t) or ""
+            if not c.endswith("Iterator::nth") or "str::Char" not in (t.get("fnargs") or ""):
+                continue
+            n += 1
+            key = "%s|%s|nth#%d" % (rule, f.short.rsplit("::", 1)[-1], 1 + len([1 for b2, t2 in f.calls() if b2 < bb and (callee(t2) or "").endswith("Iterator::nth")]))
+            if t["dest"]["p"]:
+                rep.fail(rule, key, "%s: result of nth stored in a projected place (not followed)" % f.short, [t["loc"]])
+                continue
+            ends = _follow(f, t["dest"]["l"], set())
+            bad = []
+            good = 0
+            for kind, x, b2 in ends:
+                if kind == "err":
+                    good += 1
+                elif kind == "match":
+                    # the None edge (discriminant 0) must lead to an Err construction before any return
+                    sw = None
+                    for b3 in range(len(f.blocks)):
+                        tt = f.blocks[b3]["term"]
+                        if tt["k"] == "switch" and op_place(tt["op"]) is not None and op_place(tt["op"])["l"] == x["lhs"]["l"]:
+                            sw = (b3, tt)
+                    if sw is None:
+                        bad.append("a match on the result could not be followed")
+                        continue
+                    b3, tt = sw
+                    none_t = [tg for v, tg in tt["targets"] if v == 0]
+                    none_t = none_t[0] if none_t else tt["otherwise"]
+                    region = f.reach_from(none_t, avoid=[tg for v, tg in tt["targets"] if tg != none_t])
+                    errs = [1 for b4 in region for st in f.blocks[b4]["stmts"] if st["rv"]["k"] == "agg" and st["rv"].get("variant") == "Err"]
+                    oks = [1 for b4 in region if f.dominates(none_t, b4) for st in f.blocks[b4]["stmts"] if st["rv"]["k"] == "agg" and st["rv"].get("variant") == "Ok"]
+                    if errs and not oks:
+                        good += 1
+                    else:
+                        bad.append("the None arm of the match on it does not return an error")
+                elif kind == "default":
+                    gs = guard_shapes(f, b2, roots(f, t["args"][1]) if len(t["args"]) > 1 else None)
+                    if gs:
+                        good += 1
+                    else:
+                        bad.append("its absent outcome is replaced by a default through %s" % (callee(x) or "").rsplit("::", 1)[-1])
+                else:
+                    bad.append("it is passed to %s (not followed)" % short_path(callee(x) or "?"))
+            if bad or not good:
+                rep.fail(rule, key, "%s looks up the idx-th character but %s: an index or range end past the last character is "
+                         "clamped or mis-handled instead of being reported as an error" % (f.short, "; ".join(bad) or "the result is never turned into an error"), [t["loc"]])
+            else:
+                rep.ok(rule, key, "%s: the absent outcome of the character lookup becomes an Err" % f.short, [t["loc"]])
+    rep.floor(rule, "character lookups by index (Iterator::nth over chars/char_indices) in the string procedures", n, 4)
 
 
 def run(ctx, rep):
     units.r15a(ctx, rep)
     units.r15b(ctx, rep)
+    r15c(ctx, rep)
     rep.not_decided += ["agreement of each procedure with a Vec<char> model (value-level)",
                         "that mutators change exactly the addressed characters",
                         "panic sites of these files (C06's inventory)"]
